@@ -26,6 +26,8 @@ func c19(c *Ctx) {
 	c19R7(c)
 	c19R8(c)
 	c19R9(c)
+	// shared: the trunk interface is created only into a free slot counted over all attached interfaces (C06.R6)
+	c06R6(c)
 }
 
 // R1 slot conservation in the node reconciler.
